@@ -114,19 +114,20 @@ def load_witnesses():
 def run(ctx):
     ctx.explanation = (
         "PROVED UNBOUNDED (Coq, coq/Props/C13.v) on the address-level upvalue machine (captureUpvalue, opCloseUpvalues, Upvalue.Get/Set/"
-        "Close, call/return, tail call reusing the frame, growValueStack), for every operation sequence from the initial state: the open "
-        "list is strictly sorted by slot address, duplicate-free, holds exactly the open upvalues, all pointing at slot addresses of the "
-        "current array, also across growth (C13_sorted_inv, C13_sorted_inv_step); one open upvalue per slot, so captures of one live "
-        "variable share it (C13_one_upvalue_per_slot). PROVED ONLY BOUNDED (exhaustive vm_compute over all traces of <= 6 operations from "
-        "a 23-operation alphabet satisfying the discipline D: a slot with an open upvalue is closed before it is popped or given to a new "
-        "variable instance; return and the fixed tail call close themselves): reads of the implementation machine = reads of the "
-        "store-semantics spec where every variable instance is a cell (C13_refines_bounded). D is necessary: "
+        "Close, call/return, tail call reusing the frame, growValueStack to any new base): (1) C13_refines - from any base and capacity, "
+        "for EVERY operation sequence that satisfies the discipline D (a slot whose variable instance is still referenced by a closure is "
+        "closed before it is popped or given to a new variable instance; return and the fixed tail call close themselves) and never pushes "
+        "beyond the capacity, the reads of the implementation machine equal the reads of the store-semantics spec in which every variable "
+        "instance is a heap cell and closures hold cells (simulation relation R, preserved by every operation: C13_simulation_step, "
+        "C13_refines_from); (2) C13_sorted_inv(_step), C13_one_upvalue_per_slot - the open list is strictly sorted, duplicate-free, holds "
+        "exactly the open upvalues inside the current array, one upvalue per slot, for ALL sequences. D is necessary: "
         "C13_reuse_without_close_refuted (new instance in a slot without close: what the unfixed compiler did at the `for in` back edge "
-        "and on `continue`), C13_tailcall_without_close_refuted (callBytecodeFunctionTCO as found). NOT PROVED: the unbounded refinement; "
-        "that the compiler always emits code satisfying D (tested by c13.prog only). TIED TO THE GO CODE: stream c13.machine executes "
-        "seeded operation traces on a real vm.Thread through the hook vm/verif_c13.go and compares reads and the whole offset view "
-        "with the extracted Coq machine; c13.spec compares the real Thread's reads with the extracted spec on every D-respecting trace. "
-        "c13.prog: generated closure programs vs a store-semantics reference interpreter (Python; same cell discipline as the Coq spec).")
+        "and on `continue`), C13_tailcall_without_close_refuted (callBytecodeFunctionTCO as found). NOT PROVED: that the compiler always "
+        "emits code satisfying D (tested by c13.prog only; one known finding: catch handler in the same frame). TIED TO THE GO CODE: "
+        "stream c13.machine executes seeded operation traces on a real vm.Thread through the hook vm/verif_c13.go and compares reads and "
+        "the whole offset view with the extracted Coq machine; c13.spec compares the real Thread's reads with the extracted spec on every "
+        "D-respecting trace (C13_refines evaluated on the Go code). c13.prog: generated closure programs on the real binary vs a "
+        "store-semantics reference interpreter (Python; same cell discipline as the Coq spec).")
     ctx.trusted_base += ["Python reference interpreter lib/c13lang.py (cells per variable instance) as expected-output oracle of c13.prog",
                          "the discipline D is assumed of compiled code (tested through program behaviour, not checked on bytecode)",
                          "hook /repo/vm/verif_c13.go (thin wrappers; sets vm.localCount before a tail call as PREP_LOCALS would)"]
